@@ -536,8 +536,11 @@ func TakeUntil[T, S any](signal Observable[S]) func(Observable[T]) Observable[T]
 					subscriberCtx,
 					OnNextWithContext(
 						func(ctx context.Context, value S) {
-							atomic.StoreUint32(&ready, 1)
+							// Complete first, then raise the flag: if the flag were raised first, a source
+							// running on another goroutine could have its values skipped and still deliver
+							// its own Error/Complete before this completion.
 							destination.CompleteWithContext(ctx)
+							atomic.StoreUint32(&ready, 1)
 						},
 					),
 				),
